@@ -21,12 +21,6 @@ pub open spec fn has_prefix(l: Lang) -> bool { l is Kotlin || l is Swift }
 /// `id` is one of the generic parameters in scope
 pub open spec fn is_param(g: Seq<String>, id: String) -> bool { exists|i: int| 0 <= i < g.len() && #[trigger] g[i] == id }
 
-pub open spec fn join(v: Seq<Seq<char>>, sep: Seq<char>) -> Seq<char>
-    decreases v.len()
-{
-    if v.len() == 0 { Seq::empty() } else if v.len() == 1 { v[0] } else { join(v.drop_last(), sep) + sep + v.last() }
-}
-pub open spec fn strs(v: Seq<String>) -> Seq<Seq<char>> { v.map_values(|s: String| s@) }
 pub open spec fn copies(x: Seq<char>, n: usize) -> Seq<Seq<char>> { Seq::new(n as nat, |i: int| x) }
 
 /// a user type keeps its (mapped, else prefixed) name; a generic parameter is never prefixed
